@@ -19,6 +19,7 @@ func init() {
 	theU.DeclFunc("dw", SInt, SStr)
 	theU.DeclFunc("sconcat", SStr, SStr, SStr)
 	theU.extraAxioms = strAxioms
+	theU.funcAxioms["sconcat"] = concatAxioms
 	theU.DeclFunc("typeof", SInt, SInt)
 	theU.DeclFunc("i2f", SReal, SInt)
 	theU.DeclFunc("fadd", SReal, SReal, SReal)
